@@ -637,7 +637,11 @@ func ruleBinOpIterators(r *Run) {
 	}
 	bad := false
 	nLit := 0
-	for _, c := range callsIn(bf) {
+	var groupCalls []ssa.CallInstruction
+	for _, gf := range funcGroup(bf) {
+		groupCalls = append(groupCalls, callsIn(gf)...)
+	}
+	for _, c := range groupCalls {
 		call, ok := c.(*ssa.Call)
 		if !ok {
 			continue
@@ -694,9 +698,9 @@ func ruleBinOpIterators(r *Run) {
 	}
 	// both sides are built with the same parameters
 	var params []string
-	for _, c := range callsIn(bf) {
+	for _, c := range groupCalls {
 		if call, ok := c.(*ssa.Call); ok && callIs(call, modPath+"/"+metricPkg, "build") {
-			params = append(params, describe(call.Call.Args[1], 0)+"/"+describe(call.Call.Args[2], 0))
+			params = append(params, strings.TrimLeft(describe(call.Call.Args[1], 0), "*&")+"/"+strings.TrimLeft(describe(call.Call.Args[2], 0), "*&"))
 		}
 	}
 	for _, ps := range params {
